@@ -11,13 +11,51 @@ Definition all_sites : list string :=
    "ghost-action-unwrap"; "ghost-child-path-unwrap"; "child_path_str-index"; "child_parents-unwrap"; "child_data-unwrap"; "child_path-index";
    "sub_path-type-unwrap"; "sub_path-index"; "field-ty-unwrap"; "err_ty-unwrap"].
 
-Definition NP {A} (r : res A) : Prop := forall s, r = Panic s -> In s all_sites.
+Create HintDb np.
+
+(* The lemmas are stated for an arbitrary site list L; each is proved from the hypotheses `In "<site>" L` of exactly the sites
+   its function can reach (Coq discharges only the hypotheses a proof uses), so a lemma can later be instantiated with a list
+   that omits the sites the function does not mention. *)
+Section NP.
+  Variable L : list string.
+  Hypothesis Hs0 : In "1" L.
+  Hypothesis Hs1 : In "2" L.
+  Hypothesis Hs2 : In "4" L.
+  Hypothesis Hs3 : In "5" L.
+  Hypothesis Hs4 : In "6" L.
+  Hypothesis Hs5 : In "7" L.
+  Hypothesis Hs6 : In "8" L.
+  Hypothesis Hs7 : In "9" L.
+  Hypothesis Hs8 : In "10" L.
+  Hypothesis Hs9 : In "11" L.
+  Hypothesis Hs10 : In "12" L.
+  Hypothesis Hs11 : In "13" L.
+  Hypothesis Hs12 : In "14" L.
+  Hypothesis Hs13 : In "15" L.
+  Hypothesis Hs14 : In "16" L.
+  Hypothesis Hs15 : In "17" L.
+  Hypothesis Hs16 : In "18" L.
+  Hypothesis Hs17 : In "19" L.
+  Hypothesis Hs18 : In "todo" L.
+  Hypothesis Hs19 : In "todo-variant-parent" L.
+  Hypothesis Hs20 : In "ghost-action-unwrap" L.
+  Hypothesis Hs21 : In "ghost-child-path-unwrap" L.
+  Hypothesis Hs22 : In "child_path_str-index" L.
+  Hypothesis Hs23 : In "child_parents-unwrap" L.
+  Hypothesis Hs24 : In "child_data-unwrap" L.
+  Hypothesis Hs25 : In "child_path-index" L.
+  Hypothesis Hs26 : In "sub_path-type-unwrap" L.
+  Hypothesis Hs27 : In "sub_path-index" L.
+  Hypothesis Hs28 : In "field-ty-unwrap" L.
+  Hypothesis Hs29 : In "err_ty-unwrap" L.
+
+Definition NP {A} (r : res A) : Prop := forall s, r = Panic s -> In s L.
 
 Lemma NP_ok {A} (a : A) : NP (Ok a). Proof. intros s H; discriminate. Qed.
 Lemma NP_err {A} m : NP (@Err A m). Proof. intros s H; discriminate. Qed.
 Lemma NP_oom {A} w : NP (@Oom A w). Proof. intros s H; discriminate. Qed.
 Lemma NP_lib {A} : NP (@lib_err A). Proof. intros s H; discriminate. Qed.
-Lemma NP_panic {A} s : In s all_sites -> NP (@Panic A s). Proof. intros Hin s' H; injection H as <-; exact Hin. Qed.
+Lemma NP_panic {A} s : In s L -> NP (@Panic A s). Proof. intros Hin s' H; injection H as <-; exact Hin. Qed.
 Lemma NP_bind {A B} (r : res A) (k : A -> res B) : NP r -> (forall a, NP (k a)) -> NP (bind r k).
 Proof. intros Hr Hk s H. destruct r as [a|m|site|w]; cbn [bind] in H; try discriminate; [exact (Hk a s H)|]. injection H as <-. apply (Hr site). reflexivity. Qed.
 Lemma NP_mapM {A B} (f : A -> res B) l : (forall x, NP (f x)) -> NP (mapM f l).
@@ -28,8 +66,7 @@ Qed.
 Lemma NP_finish {A} (r : pres A) : NP r -> NP (finish r).
 Proof. intro H. unfold finish. apply NP_bind; [exact H|]. intros [a rest]. destruct (is_empty rest); [apply NP_ok | apply NP_lib]. Qed.
 
-Create HintDb np.
-#[export] Hint Resolve NP_ok NP_err NP_oom NP_lib NP_finish : np.
+#[local] Hint Resolve NP_ok NP_err NP_oom NP_lib NP_finish : np.
 
 Ltac np_step :=
   match goal with
@@ -37,7 +74,7 @@ Ltac np_step :=
   | |- NP (Err _) => apply NP_err
   | |- NP (Oom _) => apply NP_oom
   | |- NP lib_err => apply NP_lib
-  | |- NP (Panic _) => apply NP_panic; cbn; tauto
+  | |- NP (Panic _) => apply NP_panic; assumption
   | |- NP (bind _ _) => apply NP_bind; [|intro]
   | |- NP (finish _) => apply NP_finish
   | |- NP (mapM _ _) => apply NP_mapM; intro
@@ -55,10 +92,10 @@ Lemma NP_parse_punct c ts : NP (parse_punct c ts). Proof. unfold parse_punct; np
 Lemma NP_parse_punct2 a b ts : NP (parse_punct2 a b ts). Proof. unfold parse_punct2; np. Qed.
 Lemma NP_parse_group d ts : NP (parse_group d ts). Proof. unfold parse_group; np. Qed.
 Lemma NP_lit_index s : NP (lit_index s). Proof. unfold lit_index; np. Qed.
-#[export] Hint Resolve NP_parse_ident NP_parse_kw NP_parse_punct NP_parse_punct2 NP_parse_group NP_lit_index : np.
+#[local] Hint Resolve NP_parse_ident NP_parse_kw NP_parse_punct NP_parse_punct2 NP_parse_group NP_lit_index : np.
 Lemma NP_peek_member be ts : NP (peek_member be ts). Proof. unfold peek_member; np. Qed.
 Lemma NP_parse_member be ts : NP (parse_member be ts). Proof. unfold parse_member; np. Qed.
-#[export] Hint Resolve NP_peek_member NP_parse_member : np.
+#[local] Hint Resolve NP_peek_member NP_parse_member : np.
 
 Lemma NP_path_mutual be : forall fuel,
     (forall ts, NP (parse_type be fuel ts)) /\ (forall ts, NP (parse_gargs be fuel ts)) /\ (forall ts, NP (parse_seg be fuel ts)) /\
@@ -75,17 +112,17 @@ Proof.
 Qed.
 Lemma NP_parse_type be fuel ts : NP (parse_type be fuel ts). Proof. apply (NP_path_mutual be fuel). Qed.
 Lemma NP_parse_path be ts : NP (parse_path be ts). Proof. unfold parse_path. apply (NP_path_mutual be). Qed.
-#[export] Hint Resolve NP_parse_type NP_parse_path : np.
+#[local] Hint Resolve NP_parse_type NP_parse_path : np.
 
 Lemma NP_parse_bound be ts : NP (parse_bound be ts). Proof. unfold parse_bound; np. Qed.
-#[export] Hint Resolve NP_parse_bound : np.
+#[local] Hint Resolve NP_parse_bound : np.
 Lemma NP_parse_bounds be : forall fuel ts, NP (parse_bounds be fuel ts).
 Proof. induction fuel as [|f IH]; intro ts; cbn [parse_bounds]; np. Qed.
 Lemma NP_parse_lt_bounds : forall fuel ts, NP (parse_lt_bounds fuel ts).
 Proof. induction fuel as [|f IH]; intro ts; cbn [parse_lt_bounds]; np. Qed.
-#[export] Hint Resolve NP_parse_bounds NP_parse_lt_bounds : np.
+#[local] Hint Resolve NP_parse_bounds NP_parse_lt_bounds : np.
 Lemma NP_parse_where_pred be ts : NP (parse_where_pred be ts). Proof. unfold parse_where_pred; np. Qed.
-#[export] Hint Resolve NP_parse_where_pred : np.
+#[local] Hint Resolve NP_parse_where_pred : np.
 
 Lemma NP_parse_terminated {A} (elem : parser A) : (forall ts, NP (elem ts)) -> forall fuel ts, NP (parse_terminated elem fuel ts).
 Proof. intro He. induction fuel as [|f IH]; intro ts; cbn [parse_terminated]; np. Qed.
@@ -99,17 +136,17 @@ Proof. unfold try_parse_container_ident. assert (H := NP_parse_path be ts). dest
 Lemma NP_optional_ident be ts : NP (try_parse_optional_ident be ts). Proof. unfold try_parse_optional_ident; np. Qed.
 Lemma NP_action ts : NP (try_parse_action ts). Proof. unfold try_parse_action; np. Qed.
 Lemma NP_braced ts : NP (try_parse_braced_action ts). Proof. unfold try_parse_braced_action; np. Qed.
-#[export] Hint Resolve NP_type_hint NP_container_ident NP_optional_ident NP_action NP_braced : np.
+#[local] Hint Resolve NP_type_hint NP_container_ident NP_optional_ident NP_action NP_braced : np.
 Lemma NP_init_data be ts : NP (parse_init_data be ts). Proof. unfold parse_init_data; np. Qed.
-#[export] Hint Resolve NP_init_data : np.
+#[local] Hint Resolve NP_init_data : np.
 Lemma NP_repeat_flags types : forall names acc, NP (repeat_flags types names acc).
 Proof. induction names as [|n r IH]; intro acc; cbn [repeat_flags]; np. Qed.
-#[export] Hint Resolve NP_repeat_flags : np.
+#[local] Hint Resolve NP_repeat_flags : np.
 Lemma NP_repeat_for be types ts : NP (parse_repeat_for be types ts).
 Proof. unfold parse_repeat_for. apply NP_bind; [apply NP_parse_terminated; intro; apply NP_parse_ident|]. intro a. np. Qed.
-#[export] Hint Resolve NP_repeat_for : np.
+#[local] Hint Resolve NP_repeat_for : np.
 Lemma NP_already_set {A} n : NP (@already_set A n). Proof. unfold already_set; np. Qed.
-#[export] Hint Resolve NP_already_set : np.
+#[local] Hint Resolve NP_already_set : np.
 Lemma NP_trait_param be a ts : NP (parse_trait_param be a ts).
 Proof.
   unfold parse_trait_param, all_consumed.
@@ -117,26 +154,26 @@ Proof.
          | |- NP (if ?b then _ else _) => destruct b
          end; np; try (apply NP_parse_separated; intro; apply NP_init_data).
 Qed.
-#[export] Hint Resolve NP_trait_param : np.
+#[local] Hint Resolve NP_trait_param : np.
 Lemma NP_trait_params be : forall fuel a ts, NP (parse_trait_params be fuel a ts).
 Proof. induction fuel as [|f IH]; intros a ts; cbn [parse_trait_params]; np. Qed.
-#[export] Hint Resolve NP_trait_params : np.
+#[local] Hint Resolve NP_trait_params : np.
 Lemma NP_trait_core be ts : NP (parse_trait_core be ts). Proof. unfold parse_trait_core; np. Qed.
-#[export] Hint Resolve NP_trait_core : np.
+#[local] Hint Resolve NP_trait_core : np.
 Lemma NP_ghost_data be ts : NP (parse_ghost_data be ts).
 Proof. unfold parse_ghost_data; np; try (apply NP_parse_separated; intro; apply NP_parse_member). Qed.
-#[export] Hint Resolve NP_ghost_data : np.
+#[local] Hint Resolve NP_ghost_data : np.
 Lemma NP_ghosts_core be ts : NP (parse_ghosts_core be ts).
 Proof. unfold parse_ghosts_core; np. apply NP_parse_terminated; intro; apply NP_ghost_data. Qed.
 Lemma NP_where_attr be ts : NP (parse_where_attr be ts).
 Proof. unfold parse_where_attr; np. apply NP_parse_separated; intro; apply NP_parse_where_pred. Qed.
 Lemma NP_child_parent_data be ts : NP (parse_child_parent_data be ts).
 Proof. unfold parse_child_parent_data; np; try (apply NP_parse_separated; intro; apply NP_parse_member). Qed.
-#[export] Hint Resolve NP_ghosts_core NP_where_attr NP_child_parent_data : np.
+#[local] Hint Resolve NP_ghosts_core NP_where_attr NP_child_parent_data : np.
 Lemma NP_child_parents_attr be ts : NP (parse_child_parents_attr be ts).
 Proof. unfold parse_child_parents_attr; np. apply NP_parse_terminated; intro; apply NP_child_parent_data. Qed.
 Lemma NP_member_core be ts : NP (parse_member_core be ts). Proof. unfold parse_member_core; np. Qed.
-#[export] Hint Resolve NP_child_parents_attr NP_member_core : np.
+#[local] Hint Resolve NP_child_parents_attr NP_member_core : np.
 
 Lemma NP_pcf_brackets be (rec : parser pcf_parsed) : (forall ts, NP (rec ts)) -> forall n attrs par ts, NP (pcf_brackets be rec n attrs par ts).
 Proof.
@@ -155,7 +192,7 @@ Qed.
 
 Lemma NP_parse_pcf be : forall fuel ts, NP (parse_pcf be fuel ts).
 Proof. induction fuel as [|f IH]; intro ts; cbn [parse_pcf]; [apply NP_oom | apply NP_pcf_brackets; exact IH]. Qed.
-#[export] Hint Resolve NP_parse_pcf : np.
+#[local] Hint Resolve NP_parse_pcf : np.
 
 Lemma NP_parent_attr be ts : NP (parse_parent_attr be ts).
 Proof. unfold parse_parent_attr; np. apply NP_parse_terminated; intro; apply NP_parse_pcf. Qed.
@@ -166,19 +203,19 @@ Lemma NP_as_attr be ts : NP (parse_as_attr be ts). Proof. unfold parse_as_attr; 
 Lemma NP_lit_attr be ts : NP (parse_lit_attr be ts). Proof. unfold parse_lit_attr; np. Qed.
 Lemma NP_hint_attr be ts : NP (parse_hint_attr be ts). Proof. unfold parse_hint_attr; np. Qed.
 Lemma NP_mrepeat_attr be ts : NP (parse_mrepeat_attr be ts). Proof. unfold parse_mrepeat_attr; np. Qed.
-#[export] Hint Resolve NP_parent_attr NP_fghost_core NP_child_attr NP_as_attr NP_lit_attr NP_hint_attr NP_mrepeat_attr : np.
+#[local] Hint Resolve NP_parent_attr NP_fghost_core NP_child_attr NP_as_attr NP_lit_attr NP_hint_attr NP_mrepeat_attr : np.
 
 Lemma NP_dt_instruction be n ts own bark : NP (parse_data_type_instruction be n ts own bark).
 Proof. unfold parse_data_type_instruction; np. Qed.
 Lemma NP_mb_instruction be n ts own bark : NP (parse_member_instruction be n ts own bark).
 Proof. unfold parse_member_instruction; np. Qed.
-#[export] Hint Resolve NP_dt_instruction NP_mb_instruction : np.
+#[local] Hint Resolve NP_dt_instruction NP_mb_instruction : np.
 
 Lemma NP_optional_parenthesized ts : NP (optional_parenthesized ts). Proof. unfold optional_parenthesized; np. Qed.
 Lemma NP_bare_attr_tokens be a : NP (bare_attr_tokens be a).
 Proof. unfold bare_attr_tokens. destruct be; [apply NP_finish, NP_optional_parenthesized|]. destruct (ra_toks a) as [|t r]; [np|]. destruct t as [s|c j|s|d inner]; np. Qed.
 Lemma NP_o2o_list_content a : NP (o2o_list_content a). Proof. unfold o2o_list_content; np. Qed.
-#[export] Hint Resolve NP_optional_parenthesized NP_bare_attr_tokens NP_o2o_list_content : np.
+#[local] Hint Resolve NP_optional_parenthesized NP_bare_attr_tokens NP_o2o_list_content : np.
 Lemma NP_o2o_item {I} be (pi : string -> list tok -> bool -> bool -> res I) ts :
   (forall n t o b, NP (pi n t o b)) -> NP (o2o_item be pi ts).
 Proof. intro H. unfold o2o_item; np. Qed.
@@ -203,58 +240,58 @@ Proof.
   - apply NP_bind; [apply NP_bare_attr_tokens|]. intro toks. apply NP_bind; [apply NP_mb_instruction|]. intro i.
     apply NP_bind; [apply IH|]. intro more. apply NP_ok.
 Qed.
-#[export] Hint Resolve NP_dt_instrs NP_mb_instrs : np.
+#[local] Hint Resolve NP_dt_instrs NP_mb_instrs : np.
 
 (* ---- Ast.v ---- *)
 Lemma NP_collect_member_attrs ty : forall instrs acc, NP (collect_member_attrs ty instrs acc).
 Proof. induction instrs as [|i rest IH]; intro acc; cbn [collect_member_attrs]; [apply NP_ok|]. destruct i; try apply IH. destruct ty; [apply IH | np]. Qed.
-#[export] Hint Resolve NP_collect_member_attrs : np.
+#[local] Hint Resolve NP_collect_member_attrs : np.
 Lemma NP_get_member_attrs be ty attrs bark : NP (get_member_attrs be ty attrs bark). Proof. unfold get_member_attrs; np. Qed.
-#[export] Hint Resolve NP_get_member_attrs : np.
+#[local] Hint Resolve NP_get_member_attrs : np.
 Lemma NP_thread_repeat {C} (mk : member_attrs -> mrepeat_attr -> C) get ctx attrs : NP (thread_repeat mk get ctx attrs).
 Proof. unfold thread_repeat; np. Qed.
-#[export] Hint Resolve NP_thread_repeat : np.
+#[local] Hint Resolve NP_thread_repeat : np.
 Lemma NP_fields_from_syn be bark : forall fs ctx i, NP (fields_from_syn be bark ctx i fs).
 Proof. induction fs as [|rf rest IH]; intros ctx i; cbn [fields_from_syn]; np. Qed.
-#[export] Hint Resolve NP_fields_from_syn : np.
+#[local] Hint Resolve NP_fields_from_syn : np.
 Lemma NP_variants_from_syn be bark : forall vs vctx fctx, NP (variants_from_syn be bark vctx fctx vs).
 Proof. induction vs as [|rv rest IH]; intros vctx fctx; cbn [variants_from_syn]; np. Qed.
-#[export] Hint Resolve NP_variants_from_syn : np.
+#[local] Hint Resolve NP_variants_from_syn : np.
 Lemma NP_merge_trait_core a b : NP (merge_trait_core a b). Proof. unfold merge_trait_core; np. Qed.
-#[export] Hint Resolve NP_merge_trait_core : np.
+#[local] Hint Resolve NP_merge_trait_core : np.
 Lemma NP_collect_dt_attrs : forall instrs m acc, NP (collect_dt_attrs instrs m acc).
 Proof. induction instrs as [|i rest IH]; intros m acc; cbn [collect_dt_attrs]; [apply NP_ok|]. destruct i; try apply IH. np. Qed.
-#[export] Hint Resolve NP_collect_dt_attrs : np.
+#[local] Hint Resolve NP_collect_dt_attrs : np.
 Lemma NP_get_data_type_attrs be attrs : NP (get_data_type_attrs be attrs). Proof. unfold get_data_type_attrs; np. Qed.
-#[export] Hint Resolve NP_get_data_type_attrs : np.
+#[local] Hint Resolve NP_get_data_type_attrs : np.
 Lemma NP_struct_from_syn be x sh fs : NP (struct_from_syn be x sh fs). Proof. unfold struct_from_syn; np. Qed.
 Lemma NP_enum_from_syn be x vs : NP (enum_from_syn be x vs). Proof. unfold enum_from_syn; np. Qed.
-#[export] Hint Resolve NP_struct_from_syn NP_enum_from_syn : np.
+#[local] Hint Resolve NP_struct_from_syn NP_enum_from_syn : np.
 Lemma NP_parse_input be x : NP (parse_input be x). Proof. unfold parse_input; np. Qed.
-#[export] Hint Resolve NP_parse_input : np.
+#[local] Hint Resolve NP_parse_input : np.
 
 (* ---- Validate.v ---- *)
 Lemma NP_validate_error_instrs e d : NP (validate_error_instrs e d). Proof. unfold validate_error_instrs; np. Qed.
 Lemma NP_validate_member_error_instrs e m : NP (validate_member_error_instrs e m). Proof. unfold validate_member_error_instrs; np. Qed.
-#[export] Hint Resolve NP_validate_error_instrs NP_validate_member_error_instrs : np.
+#[local] Hint Resolve NP_validate_error_instrs NP_validate_member_error_instrs : np.
 Lemma NP_validate_member a b c m bk tp : NP (validate_member a b c m bk tp). Proof. unfold validate_member; np. Qed.
-#[export] Hint Resolve NP_validate_member : np.
+#[local] Hint Resolve NP_validate_member : np.
 Lemma NP_validate_msgs o d : NP (validate_msgs o d). Proof. unfold validate_msgs; np. Qed.
-#[export] Hint Resolve NP_validate_msgs : np.
+#[local] Hint Resolve NP_validate_msgs : np.
 
 (* ---- Expand.v ---- *)
 Lemma NP_get_ident a : NP (get_ident a). Proof. unfold get_ident; np. Qed.
 Lemma NP_get_field_name_or a f : NP (get_field_name_or a f). Proof. unfold get_field_name_or; np. Qed.
 Lemma NP_get_action_or a p c o : NP (get_action_or a p c o). Proof. unfold get_action_or; np. Qed.
 Lemma NP_get_stuff a obj fp c o : NP (get_stuff a obj fp c o). Proof. unfold get_stuff; np. Qed.
-#[export] Hint Resolve NP_get_ident NP_get_field_name_or NP_get_action_or NP_get_stuff : np.
+#[local] Hint Resolve NP_get_ident NP_get_field_name_or NP_get_action_or NP_get_stuff : np.
 Lemma NP_render_struct_line f c h i pc : NP (render_struct_line f c h i pc).
 Proof. unfold render_struct_line. cbv zeta. np. Qed.
 Lemma NP_render_ghost_line g c : NP (render_ghost_line g c). Proof. unfold render_ghost_line; np. Qed.
 Lemma NP_render_enum_ghost_line g c : NP (render_enum_ghost_line g c). Proof. unfold render_enum_ghost_line; np. Qed.
 Lemma NP_nth_str l n : NP (nth_str l n). Proof. unfold nth_str; np. Qed.
 Lemma NP_wrap_struct c h n f : NP (wrap_struct c h n f). Proof. unfold wrap_struct; np. Qed.
-#[export] Hint Resolve NP_render_struct_line NP_render_ghost_line NP_render_enum_ghost_line NP_nth_str NP_wrap_struct : np.
+#[local] Hint Resolve NP_render_struct_line NP_render_ghost_line NP_render_enum_ghost_line NP_nth_str NP_wrap_struct : np.
 
 Lemma NP_member_loop (c : ictx) fc hint cf gf pf :
   (forall ch ms line, NP line -> NP (cf ch ms line)) -> (forall cp ms, NP (gf cp ms)) ->
@@ -404,26 +441,30 @@ Qed.
 
 Lemma NP_struct_init_block s c : NP (struct_init_block s c).
 Proof. unfold struct_init_block. destruct (_ || _); [apply NP_ok|]. cbv zeta. apply NP_bind; [apply (NP_init_mutual s c)|]. intros [toks r]. apply NP_ok. Qed.
-#[export] Hint Resolve NP_struct_init_block : np.
+#[local] Hint Resolve NP_struct_init_block : np.
 Lemma NP_variant_destruct_block s c : NP (variant_destruct_block s c). Proof. unfold variant_destruct_block. cbv zeta. np. Qed.
-#[export] Hint Resolve NP_variant_destruct_block : np.
+#[local] Hint Resolve NP_variant_destruct_block : np.
 Lemma NP_render_enum_line v c : NP (render_enum_line v c). Proof. unfold render_enum_line. cbv zeta. np. Qed.
-#[export] Hint Resolve NP_render_enum_line : np.
+#[local] Hint Resolve NP_render_enum_line : np.
 Lemma NP_enum_init_block vs g c : NP (enum_init_block vs g c). Proof. unfold enum_init_block. cbv zeta. np. Qed.
-#[export] Hint Resolve NP_enum_init_block : np.
+#[local] Hint Resolve NP_enum_init_block : np.
 Lemma NP_main_code_block d c : NP (main_code_block d c).
 Proof. unfold main_code_block, data_main_code_block, struct_main_code_block, enum_main_code_block; np. Qed.
 Lemma NP_main_code_block_ok d c : NP (main_code_block_ok d c).
 Proof. unfold main_code_block_ok, data_main_code_block, struct_main_code_block, enum_main_code_block; np. Qed.
 Lemma NP_render_parent f c : NP (render_parent f c). Proof. unfold render_parent; np. Qed.
-#[export] Hint Resolve NP_main_code_block NP_main_code_block_ok NP_render_parent : np.
+#[local] Hint Resolve NP_main_code_block NP_main_code_block_ok NP_render_parent : np.
 Lemma NP_struct_post_init d c : NP (struct_post_init d c). Proof. unfold struct_post_init; np. Qed.
 Lemma NP_err_env c : NP (err_env c). Proof. unfold err_env; np. Qed.
-#[export] Hint Resolve NP_struct_post_init NP_err_env : np.
+#[local] Hint Resolve NP_struct_post_init NP_err_env : np.
 Lemma NP_quote_trait t c : NP (quote_trait t c). Proof. unfold quote_trait. cbv zeta. np. Qed.
-#[export] Hint Resolve NP_quote_trait : np.
+#[local] Hint Resolve NP_quote_trait : np.
 Lemma NP_data_type_impl d : NP (data_type_impl d). Proof. unfold data_type_impl, expand_impl; np. Qed.
-#[export] Hint Resolve NP_data_type_impl : np.
+#[local] Hint Resolve NP_data_type_impl : np.
+
+Lemma NP_derive_res be order order_tp x : NP (derive_res be order order_tp x).
+Proof. unfold derive_res, validate. np. Qed.
+End NP.
 
 (* ---- the whole pipeline: the model panics only at the listed sites ---- *)
 Theorem model_panics_at_listed_sites : forall be order order_tp x s,
@@ -431,7 +472,6 @@ Theorem model_panics_at_listed_sites : forall be order order_tp x s,
 Proof.
   intros be order order_tp x s H. unfold derive_model in H. destruct (raw_has_none x); [discriminate|].
   destruct (derive_res be order order_tp x) as [[ts|errs]|m|site|w] eqn:E; try discriminate. injection H as <-.
-  assert (N : NP (derive_res be order order_tp x)).
-  { unfold derive_res, validate. np. }
+  assert (N : NP all_sites (derive_res be order order_tp x)) by (apply NP_derive_res; cbn; tauto).
   apply (N site). exact E.
 Qed.
